@@ -7,6 +7,7 @@
 import PV.Props.C33
 import PV.Model.SetAttr
 import PV.Model.CanonLemmas
+import PV.Model.HandleProgLemmas
 namespace PV.Props.C31
 open PV PV.Wire PV.SftpAttr PV.SetAttr PV.Generated.C33
 
@@ -183,6 +184,38 @@ theorem relative_name_resolves_under_cwd (root : Bytes) (comps : List Bytes) (na
   simp only [habs, if_true]
   exact PV.Canon.normpath_normal root (comps ++ [name]) hroot hall
 
+/-! ## attribute operations on an open handle with write buffering -/
+
+/-- **Buffering is invisible.** For every open mode (append or not), every buffer size, every initial file and
+position and every program of writes, `truncate`s and `chmod`/`chown`/`utime` calls on the handle: the served file,
+once the pending data is written (which `close` does), is exactly what the local file object produces for the same
+program (every write taking effect at once, at the position or — in append mode — at the end of file). -/
+theorem handle_program_local_meaning (file : Bytes) (p0 : Nat) (append : Bool) (bufsize : Nat)
+    (prog : List PV.HandleProg.Op) :
+    PV.HandleProg.settled
+      (PV.HandleProg.run { file := file, realpos := p0, wbuf := [], append := append, bufsize := bufsize } prog).1
+      = (PV.HandleProg.refRun { file := file, pos := p0, append := append } prog).file := by
+  have h := PV.HandleProg.run_inv prog
+    { file := file, realpos := p0, wbuf := [], append := append, bufsize := bufsize }
+    { file := file, pos := p0, append := append }
+    ⟨by simp [PV.HandleProg.settled, PV.HandleProg.apply], by simp, rfl, fun _ => rfl⟩
+  exact h.1.symm
+
+/-- `close` (and `flush`) leaves nothing pending and makes the served file the settled one -/
+theorem close_settles (s : PV.HandleProg.St) :
+    (PV.HandleProg.step s .close).1.file = PV.HandleProg.settled s ∧ (PV.HandleProg.step s .close).1.wbuf = [] :=
+  ⟨(PV.HandleProg.flush_settled s).1, (PV.HandleProg.flush_settled s).2.1⟩
+
+/-- **Truncate on a handle.** The resize applies to the file INCLUDING everything written through the handle so
+far (the buffer is flushed first, the FSETSTAT goes out after the WRITE): contents' = take n c ++ zeros (n − |c|)
+where `c` is the settled file; nothing stays pending. -/
+theorem handle_truncate (s : PV.HandleProg.St) (n : Nat) :
+    (PV.HandleProg.step s (.truncate n)).1.file = PV.HandleProg.truncated (PV.HandleProg.settled s) n ∧
+      (PV.HandleProg.step s (.truncate n)).1.wbuf = [] ∧
+      (PV.HandleProg.step s (.truncate n)).2 = (PV.HandleProg.flush s).2 ++ [PV.HandleProg.Ev.T n] := by
+  obtain ⟨f1, f2, _⟩ := PV.HandleProg.flush_settled s
+  simp [PV.HandleProg.step, f1, f2]
+
 /-! ## the hypotheses are satisfiable; the classic case -/
 
 theorem toy_laws : OSLaws toyOS := ⟨fun _ _ => rfl, fun _ _ _ => rfl, fun _ _ _ => rfl, fun _ _ => rfl⟩
@@ -197,5 +230,12 @@ example : truncated [1, 2] 4 = [1, 2, 0, 0] := by decide
 
 /-- after `chdir("/sub")`, `truncate("f", …)` names `/sub/f`, not `/f` -/
 example : adjustCwd (some [47, 115, 117, 98]) [102] = [47, 115, 117, 98, 47, 102] := by decide
+
+/-- append mode, 4096-byte buffer: "AAAAAAAA", write "bbbb", truncate 16, close ↦ "AAAAAAAAbbbb" + 4 zeros,
+with the WRITE on the wire before the FSETSTAT -/
+example : PV.HandleProg.run ⟨[65, 65, 65, 65, 65, 65, 65, 65], 8, [], true, 4096⟩
+    [.write [98, 98, 98, 98], .truncate 16, .close]
+    = (⟨[65, 65, 65, 65, 65, 65, 65, 65, 98, 98, 98, 98, 0, 0, 0, 0], 12, [], true, 4096⟩,
+       [.W 8 4, .T 16]) := by decide
 
 end PV.Props.C31
